@@ -110,13 +110,18 @@ impl Cfg {
 }
 
 static NEXT_MUX_PORT: AtomicU16 = AtomicU16::new(0);
+/// A UDP port for the single-port mux that no other pair of this process gets: a per-process counter in a
+/// high range (checked to be bindable), so parallel pairs never end up on one shared mux socket by accident.
 fn free_udp_port() -> u16 {
-    // ask the OS for a free port, release it, and hand it to the mux (same trick as the repo's tests)
-    let s = std::net::UdpSocket::bind("127.0.0.1:0").unwrap();
-    let p = s.local_addr().unwrap().port();
-    drop(s);
-    NEXT_MUX_PORT.store(p, Ordering::Relaxed);
-    p
+    if NEXT_MUX_PORT.load(Ordering::Relaxed) == 0 {
+        let base = 41000 + (std::process::id() % 200) as u16 * 100;
+        let _ = NEXT_MUX_PORT.compare_exchange(0, base, Ordering::Relaxed, Ordering::Relaxed);
+    }
+    loop {
+        let p = NEXT_MUX_PORT.fetch_add(1, Ordering::Relaxed);
+        if p < 41000 { NEXT_MUX_PORT.store(41000, Ordering::Relaxed); continue; }
+        if std::net::UdpSocket::bind(("127.0.0.1", p)).is_ok() { return p; }
+    }
 }
 
 /// Timing knobs (C17 shortens the ICE disconnect threshold / grace so "peer vanished" is observable).
